@@ -110,7 +110,10 @@ def _sha512(unit):
     return j
 
 JOBS += [_sha512(u) for u in ("init", "update", "final")]
-JOBS[-2]["wip"] = True   # sha512_update: until its 16 cases have been seen to pass on the unchanged tree
+# sha512_update: not discharged - every one of its 16 fill-range cases exceeds 30 minutes of solver time
+# (128-byte symbolic copies into the context buffer); kept for a larger budget.  sha512_final (16 cases,
+# about 15 minutes each) and the quick sha512_final_wipe are discharged.
+JOBS[-2]["wip"] = True
 
 SHA1_MAXLEN = 200
 def _sha1(unit):
